@@ -668,7 +668,7 @@ pub fn parse_tls_server_hello_extension(i: &[u8]) -> IResult<&[u8], TlsExtension
         15 => parse_tls_extension_heartbeat_content(ext_data),
         16 => parse_tls_extension_alpn_content(ext_data), // ok XXX MUST contain one protocol name
         18 => parse_tls_extension_signed_certificate_timestamp_content(ext_data),
-        21 => parse_tls_extension_encrypt_then_mac_content(ext_data, ext_len),
+        22 => parse_tls_extension_encrypt_then_mac_content(ext_data, ext_len),
         23 => parse_tls_extension_extended_master_secret_content(ext_data, ext_len),
         28 => parse_tls_extension_record_size_limit(ext_data),
         35 => parse_tls_extension_session_ticket_content(ext_data, ext_len),
